@@ -124,3 +124,53 @@ example : ∃ l, (opmKvn opmEx >>= loadOpmKvn) = .ok l ∧ (opmXml opmEx >>= loa
     exact ⟨by decide, by decide⟩)
 
 end BeyondVerif.C13
+
+namespace BeyondVerif.C13
+open BeyondVerif.Ccsds BeyondVerif.Generated
+
+/-! ## frames centred elsewhere than on the Earth
+
+`OpmWf` / `SegWf` ask for `frame ∈ frameTable.map (·.1)`; the table is regenerated from the live objects and holds, besides the ten
+Earth-centred frames, every frame the library can create around another centre (solar-system bodies, bodies of the JPL kernels with
+names of one to three words, Lagrange points).  So the whole-message theorems above hold for those too: CENTER_NAME is printed by the
+CamelCase split and mapped back by the readers' `title().replace(" ", "")` (`frames_roundtrip`, `center_name_roundtrip`). -/
+
+def opmSsb : Opm := { opmEx with frame := "SolarSystemBarycenter" }
+
+theorem opmSsb_wf : OpmWf opmSsb :=
+  { opmEx_wf with
+    frame := by decide
+    mans := by
+      intro x hx
+      simp only [opmSsb, opmEx, List.mem_cons, List.not_mem_nil, or_false] at hx
+      subst hx
+      exact ⟨⟨⟨_, _, _, rfl, by decide, by decide, by decide⟩, by decide, by decide, by decide⟩, Or.inr (Or.inl rfl)⟩ }
+
+/-- an OPM in the JPL frame SolarSystemBarycenter (CENTER_NAME = SOLAR SYSTEM BARYCENTER, REF_FRAME = EME2000) with a QSW maneuver and a
+user-defined field: read back as itself from KVN and from XML -/
+example : (opmKvn opmSsb >>= loadOpmKvn) = .ok opmSsb ∧ (opmXml opmSsb >>= loadOpmXml) = .ok opmSsb :=
+  ⟨opm_kvn_load_dump_id opmSsb opmSsb_wf (by intro kvs hk; cases hk; exact ⟨by decide, by decide⟩), opm_xml_load_dump_id opmSsb opmSsb_wf⟩
+
+def segL2 : Seg := { segEx with frame := "SunEarthL2" }
+
+example : (oemKvn [segL2] >>= loadOemKvn) = .ok [segL2] ∧ (oemXml [segL2] >>= loadOemXml) = .ok [segL2] := by
+  have h : ∀ s ∈ [segL2], SegWf s := by
+    intro s hs
+    simp only [List.mem_cons, List.not_mem_nil, or_false] at hs
+    subst hs
+    exact { frame := by decide, name := by decide, id := by decide, scale := by decide, method := by decide, order := by decide,
+            points_ne := by simp [segL2, segEx],
+            points := by
+              intro p hp
+              simp only [segL2, segEx, List.mem_cons, List.not_mem_nil, or_false] at hp
+              subst hp
+              exact ⟨by decide, _, _, _, _, _, _, rfl, by decide, by decide, by decide, by decide, by decide, by decide⟩
+            covs := by
+              intro p hp c hc
+              simp only [segL2, segEx, List.mem_cons, List.not_mem_nil, or_false] at hp
+              subst hp
+              cases hc
+            nodup := by simp [segL2, segEx] }
+  exact ⟨oem_kvn_load_dump_id _ h, oem_xml_load_dump_id _ (by simp) h⟩
+
+end BeyondVerif.C13
